@@ -219,6 +219,16 @@ Definition view_grows (a b : tr) : bool :=
 
 Definition same_hr (a b : tr) : bool := (vv_h a =? vv_h b) && (vv_r a =? vv_r b).
 
+(** a jump-ahead view handed to the state machine: strictly newer than what it holds for that round, and
+    otherwise a later round or height than the one it is in *)
+Definition jump_ok (last : option tr) (jv : list tr) : bool :=
+  match last, jv with
+  | Some lv, [j] =>
+      if same_hr lv j then vv_ver lv <? vv_ver j
+      else (vv_h lv <? vv_h j) || ((vv_h lv =? vv_h j) && (vv_r lv <? vv_r j))
+  | _, _ => true
+  end.
+
 (** state machine stream: within one entrance, strictly newer and growing views of the entered round *)
 Fixpoint c11_sm_bad (i : nat) (last : option tr) (l : list tr) : option nat :=
   match l with
@@ -229,6 +239,7 @@ Fixpoint c11_sm_bad (i : nat) (last : option tr) (l : list tr) : option nat :=
       else if tag =? 1 then c11_sm_bad (S i) (Some (nth_tr (io_of o) 1)) rest
       else if tag =? 2 then c11_sm_bad (S i) None rest
       else if tag =? 3 then
+        if negb (jump_ok last (tls (nth_tr (io_of o) 2))) then Some i else
         match tls (nth_tr (io_of o) 1) with
         | [vv] =>
             let ok := match last with
